@@ -2,9 +2,11 @@
    Dispatch is the translated code (Gen/JsonResolve.v: [to_json_dispatch], [from_json_chain], [base_to_json_fields],
    [get_full_class_name]); recursion, the class world and the calls into user code are written here.
 
-   World: the list of defined classes.  The namespace of module m holds the classes defined at module level in m under
-   their own __name__ (Python binds `class C` in the enclosing scope: a class nested in another class is an attribute of
-   that class, not of the module).  importlib / getattr / issubclass / the registry are instantiated from the world.
+   World: the list of defined classes, each with its module and its qualified-name path.  The namespace of module m binds a
+   class of m with path [n] under n; the namespace of a class with path p binds the class of the same module with path
+   p ++ [n] under n (Python binds `class C` in the enclosing scope).  A class defined inside a function has "<locals>" in
+   its path and is bound nowhere.  importlib / getattr / issubclass / the registry are instantiated from the world, and
+   _resolve_enclosing_class is the hand model [enclosing] of Json/Resolve.v over them.
 
    User code (Section variables): for a SubclassJSONSerializer class c,
      ufields c own kj   what c.to_json adds to super().to_json(), given the payload and the serialised child values
@@ -12,7 +14,7 @@
                         (it then calls from_json on each child and builds cls(own, kids))
    and for a registered type t:  rser t p (the whole dict), rdeser t d.                                               *)
 From Coq Require Import List ZArith Bool Lia.
-From Krrood Require Import Base.Sx Json.JsonVal Json.SerializerSpec Gen.JsonResolve.
+From Krrood Require Import Base.Sx Json.JsonVal Json.ResolveSpec Json.SerializerSpec Gen.JsonResolve Json.Resolve.
 Import ListNotations.
 Open Scope Z_scope.
 
@@ -29,13 +31,14 @@ Definition cls_eqb (a b : cls) : bool :=
 
 Definition cname (c : cls) : str := last (c_qual c) [].                    (* cls.__name__ *)
 Definition cqualname (c : cls) : str := join_dots (c_qual c).              (* cls.__qualname__ *)
-Definition module_level (c : cls) : bool := match c_qual c with [_] => true | _ => false end.
 Definition full_name (c : cls) : str := get_full_class_name (c_mod c) (cname c) (cqualname c).
+Definition LOCALS : str := [60; 108; 111; 99; 97; 108; 115; 62].           (* "<locals>" *)
+Definition is_local (c : cls) : bool := str_contains (cqualname c) LOCALS.
 
 (* ---- the import machinery over a world *)
 Definition world := list cls.
-Definition lookup (w : world) (m n : str) : option cls :=
-  find (fun c => module_level c && str_eqb (c_mod c) m && str_eqb (cname c) n) w.
+Definition lookup (w : world) (m : str) (path : list str) : option cls :=
+  find (fun c => str_eqb (c_mod c) m && strs_eqb (c_qual c) path) w.
 Definition module_exists (w : world) (m : str) : bool := existsb (fun c => str_eqb (c_mod c) m) w.
 Definition w_import (w : world) (s : str) : M str :=
   match s with
@@ -43,14 +46,25 @@ Definition w_import (w : world) (s : str) : M str :=
   | _ => if str_startswith s [DOT] then Exn TypeError
          else if module_exists w s then Ok s else Exn ModuleNotFoundError
   end.
-Definition w_getattr (w : world) (m n : str) : M cls :=
-  match lookup w m n with Some c => Ok c | None => Exn AttributeError end.
+Definition w_getattr (w : world) (o : owner str cls) (n : str) : M cls :=
+  match (match o with
+         | OMod m => lookup w m [n]
+         | OCls c => lookup w (c_mod c) (c_qual c ++ [n])
+         end) with
+  | Some c => Ok c
+  | None => Exn AttributeError
+  end.
 Definition w_is_type (c : cls) : bool := true.
 Definition w_issubclass (c : cls) : M bool := Ok (kind_eqb (c_kind c) KSer).
 Definition w_deserializer (c : cls) : option cls := if kind_eqb (c_kind c) KReg then Some c else None.
 
 Definition w_chain (w : world) : jv -> outcome jerr (fj_action cls cls) :=
-  from_json_chain str cls cls (w_import w) (w_getattr w) w_is_type w_issubclass w_deserializer.
+  chain str cls cls (w_import w) (w_getattr w) w_is_type w_issubclass w_deserializer.
+
+(* the C19 decision table read on this world: what a tag resolves to *)
+Definition w_table (w : world) (tag : option jv) : resolution cls cls :=
+  resolve_spec str cls cls (view_module str (w_import w)) (view_attr str cls (w_getattr w)) w_is_type
+    (view_subclass cls w_issubclass) w_deserializer tag.
 
 (* modelled step: json.loads (json.dumps j) = j on this value type (CPython's json; compared on every case) *)
 Definition json_text (j : jv) : jv := j.
@@ -124,8 +138,14 @@ Section Serializer.
     | Return TJ_CallMethod =>
         match v with
         | VObj c own kids =>
-            match sequence (map to_json kids) with
-            | Return kj => Return (JObj (base_to_json_fields (c_mod c) (cname c) (cqualname c) ++ ufields c own kj))
+            (* the class's to_json first calls super().to_json() (header dict or refusal), then serialises the children *)
+            match base_to_json (c_mod c) (cname c) (cqualname c) with
+            | Return header =>
+                match sequence (map to_json kids) with
+                | Return kj => Return (JObj (header ++ ufields c own kj))
+                | RaiseJ j => RaiseJ j
+                | RaiseF e => RaiseF e
+                end
             | RaiseJ j => RaiseJ j
             | RaiseF e => RaiseF e
             end
@@ -221,11 +241,16 @@ Fixpoint jv_tags (j : jv) : list str :=
   | _ => []
   end.
 
-(* ---- the fragment F of the round-trip theorem *)
-Definition valid_module_name (m : str) : bool := match m with [] => false | c :: _ => negb (Z.eqb c DOT) end.
-Definition cls_ok (w : world) (c : cls) : bool :=
-  module_level c && valid_module_name (c_mod c) && no_sep DOT (cname c) &&
-  match lookup w (c_mod c) (cname c) with Some c' => cls_eqb c' c | None => false end.
+(* ---- the fragment F of the round-trip theorem: the class is not function-local, and its own tag names it -- i.e. the
+   C19 decision table, read on this world, resolves "<module>.<qualified name>" to the class itself
+   (C18_fragment_is_named_classes gives the structural conditions under which that holds) *)
+Definition names_itself (w : world) (c : cls) : bool :=
+  match w_table w (Some (JStr (full_name c))) with
+  | RByClass c' => cls_eqb c' c && kind_eqb (c_kind c) KSer
+  | RByRegistry c' _ => cls_eqb c' c && kind_eqb (c_kind c) KReg
+  | RError _ => false
+  end.
+Definition cls_ok (w : world) (c : cls) : bool := negb (is_local c) && names_itself w c.
 Definition value_ok {P} (w : world) (v : value P) : bool := in_grammar v && forallb (cls_ok w) (objects v).
 
 (* ---- sample user code = the classes of the correspondence harness (harness/c18.py), payload = a JSON value *)
